@@ -10,6 +10,7 @@ CONSTANTS
   RAWANG <- NONE
   QUADS = {1,2,3,4,5,6,7,8,9,10,11,12,13,14,15,16,17,18,19,20}
   SCALES <- NONE
+  AXQUADS = {}
 INVARIANT TypeOK
 INVARIANT StackOrtho
 INVARIANT NormLaw
@@ -17,5 +18,6 @@ INVARIANT OmegaLaw
 INVARIANT OriginLaw
 INVARIANT Roundtrip
 INVARIANT EwaldBound
+INVARIANT AxisLaw
 INVARIANT Emit
 CHECK_DEADLOCK FALSE
